@@ -150,6 +150,13 @@ struct Array {
 
     void operator+=(Type_T &&item) {
         if (Size() == Capacity()) {
+#ifdef QENTEM_VERIF_HOOKS
+            // Verification hook: exact-fit growth, so the logical end borders the allocator's red zone.
+            resize(Capacity() + SizeT{1});
+        }
+
+        if (Size() == Capacity()) {
+#endif
             resize((Capacity() | (Capacity() == 0)) * SizeT{2});
         }
 
@@ -159,6 +166,13 @@ struct Array {
 
     inline void operator+=(const Type_T &item) {
         if (Size() == Capacity()) {
+#ifdef QENTEM_VERIF_HOOKS
+            // Verification hook: exact-fit growth, so the logical end borders the allocator's red zone.
+            resize(Capacity() + SizeT{1});
+        }
+
+        if (Size() == Capacity()) {
+#endif
             resize((Capacity() | (Capacity() == 0)) * SizeT{2});
         }
 
